@@ -200,6 +200,15 @@ func buildHarnessHandlers(h map[string]handler) {
 		e.yield(func() bool { return true }, nil)
 		return nil
 	}
+	h[H+"ArmedTimers"] = func(e *Exec, fn *ssa.Function, a []Value) Value {
+		n := 0
+		for _, t := range e.sch.timers {
+			if t.armed {
+				n++
+			}
+		}
+		return K(int64(n))
+	}
 	h[H+"NegativeTimerDelay"] = func(e *Exec, fn *ssa.Function, a []Value) Value {
 		if e.negTimer == nil {
 			return tFalse
